@@ -59,10 +59,19 @@ func newExecutionPlan(keys []types.String, filter types.Value) *executionPlan {
 			plan.intersect(newExecutionPlan(keys, child))
 		}
 	}
-	if v, ok := f.Get(types.NewString("$or")).(types.Slice); ok {
-		for _, child := range v.Range() {
-			plan.union(newExecutionPlan(keys, child))
+	if v, ok := f.Get(types.NewString("$or")).(types.Slice); ok && v.Len() > 0 {
+		var or *executionPlan
+		for i, child := range v.Range() {
+			p := newExecutionPlan(keys[:1], child)
+			if i == 0 && p != nil {
+				or = &executionPlan{key: key, min: p.min, max: p.max}
+			} else if i == 0 {
+				or = &executionPlan{key: key}
+			} else {
+				or.union(p)
+			}
 		}
+		plan.intersect(or)
 	}
 
 	if plan.min == nil && plan.max == nil {
@@ -96,10 +105,11 @@ func (e *executionPlan) union(other *executionPlan) {
 		return
 	}
 
-	if other.min != nil && types.Compare(other.min, e.min) < 0 {
+	// nil means unbounded: the union is unbounded on a side as soon as one operand is
+	if e.min != nil && (other.min == nil || types.Compare(other.min, e.min) < 0) {
 		e.min = other.min
 	}
-	if other.max != nil && types.Compare(other.max, e.max) > 0 {
+	if e.max != nil && (other.max == nil || types.Compare(other.max, e.max) > 0) {
 		e.max = other.max
 	}
 }
